@@ -608,3 +608,27 @@ fn test_glob_section_character_class() {
     assert!(!escape_rule.matches(b"fooxbar", None));
     assert!(!escape_rule.matches(b"foobar", None));
 }
+
+/// Accessors used by `verif_api::rules`. They add no behaviour.
+#[cfg(feature = "verif")]
+impl<'data> SectionRule<'data> {
+    pub(crate) fn verif_matches(&self, section_name: &[u8], file_name: Option<&[u8]>) -> bool {
+        self.matches(section_name, file_name)
+    }
+
+    /// 0 = exact, 1 = prefix, 2 = glob; together with the literal bytes of the matcher.
+    pub(crate) fn verif_matcher(&self) -> (u8, Vec<u8>) {
+        match &self.name_matcher {
+            SectionNameMatcher::Exact(n) => (0, n.to_vec()),
+            SectionNameMatcher::Prefix(n) => (1, n.to_vec()),
+            SectionNameMatcher::Glob(n, _) => (2, n.to_vec()),
+        }
+    }
+}
+
+#[cfg(feature = "verif")]
+impl<'data> SectionRules<'data> {
+    pub(crate) fn verif_from_rules(rules: &[SectionRule<'data>]) -> Self {
+        Self::from_rules(rules)
+    }
+}
